@@ -2,6 +2,7 @@
 basis-function class: the returned derivative must equal the derivative of the object's own evaluation (complex-step
 differentiation; central differences where the evaluation is not analytic, i.e. B-splines)."""
 import collections
+import copy
 import importlib
 
 import numpy as np
@@ -24,7 +25,19 @@ def _analytic(obj):
     return _family(obj) not in ('Bspline', 'IndicatorFunction')
 
 
+# The oracle evaluates the function through the object's own methods; it does so on a deep copy taken at the start of every
+# postcondition, so that reference evaluations neither depend on nor disturb whatever the live object remembers between calls.
+SUBJECT = {'obj': None, 'clone': None}
+
+
+def _clone_of(obj):
+    if SUBJECT['obj'] is obj and SUBJECT['clone'] is not None:
+        return SUBJECT['clone']
+    return obj
+
+
 def _eval(obj, t):
+    obj = _clone_of(obj)
     return type(obj).__call__.__vt_plain__(obj, t) if hasattr(type(obj).__call__, '__vt_plain__') else obj(t)
 
 
@@ -47,6 +60,7 @@ def d2_from_partial(obj, t, k1, k2):
     t = np.asarray(t)
     tc = t.astype(complex)
     tc[k2] = tc[k2] + 1j * H_CS
+    obj = _clone_of(obj)
     plain = type(obj).partial
     plain = getattr(plain, '__vt_plain__', plain)
     return np.imag(plain(obj, tc, k1)) / H_CS
@@ -105,6 +119,10 @@ def _guarded(fn):
             return True
         probe.S.busy += 1
         try:
+            try:
+                SUBJECT['obj'], SUBJECT['clone'] = a[0], copy.deepcopy(a[0])
+            except Exception:
+                SUBJECT['obj'], SUBJECT['clone'] = None, None
             fn(*a, **kw)
             if not kw:
                 _retain_and_check(fn, a)
